@@ -10,12 +10,12 @@ def op(name, o=0, p=0, t=0):
     return {"op": name, "o": o, "p": p, "t": t}
 
 
-def new_prog(rec=(), cap=(), ncv=0, bar=(), actors=(), hosts=0, perm=(), nmq=0, timed=True, spawn=None):
+def new_prog(rec=(), cap=(), ncv=0, bar=(), actors=(), hosts=0, perm=(), nmq=0, timed=True, spawn=None, gran="run"):
     """perm[b] = permanent receiver (actor number, 0 = none) of mailbox b+1; timed = exact durations (one host per actor,
     dedicated FATPIPE link, 1 byte = 1 tick, 1 exec unit = 1 tick)."""
     return {"rec": list(rec), "cap": list(cap), "ncv": ncv, "bar": list(bar), "hosts": hosts or max(1, len(actors)),
             "perm": list(perm), "nmq": nmq, "timed": bool(timed), "actors": [list(a) for a in actors],
-            "spawn": [bool(x) for x in spawn] if spawn is not None else [False] * len(actors)}
+            "spawn": [bool(x) for x in spawn] if spawn is not None else [False] * len(actors), "gran": gran}
 
 
 TIMED_CFG = ["--cfg=network/model:CM02", "--cfg=network/crosstraffic:0"]
@@ -276,7 +276,9 @@ def streams(recs, nactors):
 
 
 def validate_traces(ctx, progs, traces, tag="tv", timeout=1200, spec="SgKernelTrace.tla", chunk=400, max_rej=6,
-                    refs=None):
+                    refs=None, outcomes=None):
+    """... outcomes: optional list; receives (index of the trace in `traces`, still_enabled: bool, outcome dict) for every
+    execution closed by an xend line (executions explored by simgrid-mc)."""
     """traces[i] = records of the run of progs[i] (or list of (prog index, records)). Returns a list of rejections
     {run, prog, line, record, reason, tlc}. A rejected run is removed and the rest of its batch re-validated, so every
     run is examined."""
@@ -284,6 +286,9 @@ def validate_traces(ctx, progs, traces, tag="tv", timeout=1200, spec="SgKernelTr
         traces = list(enumerate(traces))
     if refs is not None:   # refs[j] = reference trace (records) of traces[j]; carried along as a third component
         traces = [(pi, recs, ref) for (pi, recs), ref in zip(traces, refs)]
+    else:
+        traces = [(pi, recs, None) for (pi, recs) in traces]
+    traces = [t + (k,) for k, t in enumerate(traces)]     # fourth component: index in the caller's list
     pf = os.path.join(ctx.scratch, tag + "_progs.json")
     write_progs(pf, progs)
     rejections = []
@@ -309,6 +314,14 @@ def validate_traces(ctx, progs, traces, tag="tv", timeout=1200, spec="SgKernelTr
             r = vlib.tlc(os.path.join(KSPEC, spec), env=env, timeout=timeout, workers=1)
             stats[0] += r.distinct
             stats[1] += r.generated
+            if outcomes is not None:
+                for line in r.prints:
+                    if line.startswith('<<"TOUT"'):
+                        try:
+                            v = vlib.parse_tla_value(line)
+                            outcomes.append((todo[v[1] - 1][3], bool(v[2]), json.loads(v[3])))
+                        except Exception:
+                            pass
             if r.status in ("parse", "eval", "timeout", "error", "assumption", "deadlock", "property"):
                 raise vlib.InfraError("trace validation failed to run: %s\n%s" % (r.status, r.what[-3000:]))
             prog_line = None
